@@ -70,7 +70,7 @@ def main(repo, out):
         else: note('unrecognised shape of sequential_int_exprs: ' + nows(b)[:200])
 
     # --- ids written
-    w0 = wstep = None; wcarry = 'false'
+    w0 = wstep = None; wcarry = 'false'; wwraps = 'false'
     b = fn_body_full(rw, 'write_anm')
     if b is None: note('not found: write_anm')
     else:
@@ -83,7 +83,9 @@ def main(repo, out):
     if b is None: note('not found: write_entry')
     else:
         m = re.search(r'letsprite_id=sprite\.id\.unwrap_or\(\*next_auto_sprite_id\);\*next_auto_sprite_id=sprite_id\+(\w+);write_sprite\(w,sprite_id,sprite\)\?;', nows(b))
+        m2 = re.search(r'letsprite_id=sprite\.id\.unwrap_or\(\*next_auto_sprite_id\);\*next_auto_sprite_id=sprite_id\.wrapping_add\((\w+)\);write_sprite\(w,sprite_id,sprite\)\?;', nows(b))
         if m: wstep = num(m.group(1), 'write_entry step')
+        elif m2: wstep = num(m2.group(1), 'write_entry step'); wwraps = 'true'
         else: note('unrecognised sprite id numbering in write_entry')
     b = fn_body_full(rw, 'write_sprite')
     if b is None or not nows(b).startswith('f.write_u32(sprite_id)?;'): note('unrecognised write_sprite (id field)')
@@ -131,9 +133,9 @@ def main(repo, out):
     t = '(* GENERATED by gen/ids.py from anm/mod.rs, anm/read_write.rs, msg.rs, ecl/ecl_06.rs, std.rs -- do not edit *)\n'
     t += 'From TV Require Import Base.I32 Model.Ids.\n'
     t += ('Definition gen_idtable : idtable := {| it_const_base0 := %s; it_const_k0 := %s; it_const_op := %s; it_const_restart := %s;\n'
-          '  it_writer_next0 := %s; it_writer_step := %s; it_writer_carry := %s;\n'
+          '  it_writer_next0 := %s; it_writer_step := %s; it_writer_carry := %s; it_writer_wraps := %s;\n'
           '  it_script_const := %s; it_sub_const := %s; it_std_object := %s; it_msg_densify := %s; it_msg_offsets := %s; it_timeline := %s |}.\n') % (
-        z(base0), z(k0), op, restart, z(w0), z(wstep), wcarry, script_rule, sub_rule, obj_rule, dens, msgw, tl)
+        z(base0), z(k0), op, restart, z(w0), z(wstep), wcarry, wwraps, script_rule, sub_rule, obj_rule, dens, msgw, tl)
     t += '(* translator notes:\n' + ''.join('   %s\n' % n.replace('*)', '* )') for n in NOTES) + '*)\n'
     write_if_changed(out, t)
     for n in NOTES: print('ids: ' + n)
